@@ -1,7 +1,16 @@
 import Driver.Proto
+import TR.Excess
 /-! names stream: two recorders started within the same millisecond get different files, both complete (C10). -/
 namespace Driver.NamesStream
 open Driver
+
+def hexVal (c : Char) : Nat :=
+  if c.isDigit then c.toNat - 48 else if 'a' ≤ c ∧ c ≤ 'f' then c.toNat - 87 else 0
+def hexBytes (h : String) : List Nat :=
+  let rec go : List Char → List Nat
+    | a :: b :: r => (hexVal a * 16 + hexVal b) :: go r
+    | _ => []
+  go h.toList
 
 structure St where
   pairs : Nat := 0          -- finished recordings so far = 2 * pairs
@@ -22,7 +31,23 @@ def step (st : St) (bl : Block) : St × List String :=
     -- whether a small file system can be mounted is the environment's business (echoed); if it can, the continuous
     -- recorder deletes exactly the k oldest of its own recordings, keeps the rest and the main directory, and starts
     if bl.outs.contains ["full", "skipped"] then (st, ["full skipped"])
-    else (st, [s!"full k={nat k} ret=ok oldleft=2 mainkept=true"])
+    else match bl.outs.find? (fun o => o.head? == some "fullstate") with
+      | some o =>
+        -- the file system as measured by the harness is the input of the model of deleteExcessRecordings (`TR.Excess`,
+        -- theorems in `Props.Excess`: the oldest recordings go first, as few as possible, nothing else is touched)
+        let kv (key : String) : String := match o.find? (·.startsWith (key ++ "=")) with
+          | some s => (s.drop (key.length + 1)).toString | none => ""
+        let files : List (String × Nat) := ((kv "files").splitOn ",").filterMap fun e =>
+          match e.splitOn ":" with
+          | [h, b] => some (String.ofList ((hexBytes h).map Char.ofNat), nat b)
+          | _ => none
+        let total := nat (kv "total")
+        let used := (files.map (·.2)).foldl (· + ·) 0
+        let (cnt, ok) := TR.Excess.expectDeleted total (total - nat (kv "avail") - used) files
+        let nOld := (files.filter fun f => f.1.startsWith "20200101.").length
+        let gone := ((files.take cnt).filter fun f => f.1.startsWith "20200101.").length
+        (st, [joinSp o, s!"full k={nat k} ret={if ok then "ok" else "err"} oldleft={nOld - gone} mainkept=true"])
+      | none => (st, [s!"full k={nat k} ret=ok oldleft=2 mainkept=true"])
   | ["clash", _, n] =>
     -- finished recordings already bear every name of the next milliseconds: the new recording takes another name, all
     -- of them are kept as they are, and exactly one file is added (`TR.C10Gen`: ids are fresh; the wait loop of the F9 fix)
@@ -49,7 +74,7 @@ def monStep (st : St) (bl : Block) : St × List String :=
       (st', [s!"prop=C10 reason={r}"])
   | ["full", k] =>
     if bl.outs.contains ["full", "skipped"] then (st, []) else
-    let want := fields s!"full k={nat k} ret=ok oldleft=2 mainkept=true"
+    let want := fields (((step st bl).2.filter (·.startsWith "full k=")).headD "")
     match bl.outs.find? (fun o => o.head? == some "full") with
     | some o =>
       if o == want then ({ st with fulls := st.fulls + 1 }, []) else
